@@ -592,12 +592,17 @@ Definition parse_line (o : oracle) (v : variant) (s : st) (line : list Z) : st *
     end
   end.
 
-(* parse(byte): rbuf is self.msg reversed *)
-Definition feed (o : oracle) (v : variant) (s : st) (b : Z) : st * obs :=
-  match b, rbuf s with
-  | 10, 13 :: _ => parse_line o v (set_rbuf s []) (strip_crlf (rev (b :: rbuf s)))
-  | _, _ => (set_rbuf s (b :: rbuf s), OTrue)
+(* parse(byte): rbuf is self.msg reversed; msg.endswith('\r\n') after appending the byte *)
+Definition ends_crlf (b : Z) (rb : list Z) : bool :=
+  match rb with
+  | c :: _ => (b =? 10) && (c =? 13)
+  | [] => false
   end.
+
+Definition feed (o : oracle) (v : variant) (s : st) (b : Z) : st * obs :=
+  if ends_crlf b (rbuf s)
+  then parse_line o v (set_rbuf s []) (strip_crlf (rev (b :: rbuf s)))
+  else (set_rbuf s (b :: rbuf s), OTrue).
 
 (* ------------------------------------------------------------------------------------------ *)
 (* timers firing, system_stop, events *)
@@ -642,10 +647,14 @@ Definition shutdown_ack : list Z := zs "$server_shutdown%%%%%".
 
 Definition system_stop (v : variant) (s : st) : st * obs :=
   let s := match v with
-           | VMistral => cancel_id (cancel_id (cancel_id s (setupID s)) (targetID s)) (vnaID s)
+           | VMistral =>                              (* stop_tasks() *)
+             let s := cancel_id s (setupID s) in
+             let s := cancel_id s (targetID s) in
+             cancel_id s (vnaID s)
            | _ => s
            end in
-  let s := cancel_id (cancel_id s (startID s)) (stopID s) in
+  let s := cancel_id s (startID s) in                 (* _cancel_timers() *)
+  let s := cancel_id s (stopID s) in
   (s, OAck shutdown_ack).
 
 Inductive event :=
